@@ -140,6 +140,10 @@ Fixpoint swfb (L : lang) (s : sty) : bool :=
       end && forallb (swfb L) args
   end.
 
+(* concrete types printable and parseable in type notation: Top, Bottom,
+   products and the language's operators, no Function and no Unit *)
+Definition text_domb (L : lang) (t : ty) : bool := swfb L (embed t).
+
 (* ------------------------------------------------------------------ *)
 (* Language.parse_type, consume_all = True *)
 
